@@ -329,7 +329,7 @@ def _axis_class(b, o, depth=0):
             if re.search(r"Dir::other$|::other$", callee_name(c) or "") and c["args"]:
                 r = _axis_class(b, c["args"][0], depth + 1)
                 return (r[0], 1 - r[1]) if r else None
-            return None
+            # any other call (a helper mapping the side to its axis): its result is a root of its own
     return ("%s%s" % (b.local_name(l) or "_%d" % l, "".join("." + str(e.get("n", e.get("f"))) for e in pl["p"] if isinstance(e, dict) and ("f" in e))), 0)
 
 
